@@ -1,4 +1,4 @@
-import GB.C05.Proofs
+import GB.C05.Witness
 /-
   C05 — reflection resolution reproduces the target's contract for any conformant server.
   Property theorems only; helper lemmas live in Proofs.lean, vocabulary in Spec.lean.
@@ -262,35 +262,6 @@ theorem C05_all_unimplemented (dedup : List DFile → List DFile) (cfg : Cfg) (e
 
 /-! ## witnesses (kernel-checked by evaluation) -/
 
-namespace GB.C05.Witness
-/-- files "a" (service "a", imports "c"), "b" (service "b", imports "c"), "c" (message "m") -/
-def ma : DMethod :=
-  { name := [68], input := [109], output := [109], clientStreaming := false, serverStreaming := true,
-    http := some { primary := ⟨.get [47, 120], [], []⟩, additional := [⟨.custom [72] [47], [42], [114]⟩] } }
-def fa : DFile := { name := [97], deps := [[99]], messages := [], services := [{ name := [97], methods := [ma] }] }
-def fb : DFile := { name := [98], deps := [[99]], messages := [], services := [{ name := [98], methods := [] }] }
-def fc : DFile := { name := [99], deps := [], messages := [[109]], services := [] }
-def srv : Server := { files := [fa, fb, fc], listed := [[97], [98], [97], [46]] }
-def cfg : Cfg := { limit := 1, onlyServices := false, ignore := [grpcPrefix] }
-def cfg0 : Cfg := { limit := 0, onlyServices := false, ignore := [grpcPrefix] }
-/-- answers every request with the full import closure, like most reflection servers -/
-def closurePol : Policy := fun _ q =>
-  match q with
-  | .list => .listing srv.listed
-  | .symbol n => if n = [97] then .files [fa, fc] else if n = [98] then .files [fb, fc] else .error 5
-  | .filename n => if n = [97] then .files [fa, fc] else if n = [98] then .files [fb, fc]
-                   else if n = [99] then .files [fc] else .error 5
-/-- answers only with the requested file -/
-def onlyPol : Policy := fun _ q =>
-  match q with
-  | .list => .listing srv.listed
-  | .symbol n => if n = [97] then .files [fa] else if n = [98] then .files [fb] else .error 5
-  | .filename n => if n = [97] then .files [fa] else if n = [98] then .files [fb]
-                   else if n = [99] then .files [fc] else .error 5
-def idSched : Sched := fun _ l => l
-def ep (p : Policy) : Endpoint := { connErr := none, pol := p, sched := idSched }
-def unimpl : Endpoint := { connErr := some codeUnimplemented, pol := closurePol, sched := idSched }
-end GB.C05.Witness
 
 open GB.C05.Witness in
 /-- D5, before the fix: with `processed` never filled, a target answering two services' requests
@@ -326,3 +297,26 @@ theorem C05_fallback_witness :
     (resolve (dedupFiles []) cfg env initState).2.1 = .update
       { services := [contractOf srv.files [97], contractOf srv.files [98]], files := [fa, fc, fb] } := by
   decide
+
+open GB.C05.Witness in
+/-- Non-vacuity of `C05_complete_focused`: the witness target and its closure-answering service satisfy
+    every hypothesis (well-formed, conformant, focused, fair schedule, depth 1 ≤ limit 1), so the
+    conclusion is reached through the theorem, not only by evaluation. -/
+theorem C05_complete_focused_nonvacuous :
+    WF cfg srv ∧ Conformant srv closurePol ∧ Focused srv closurePol ∧ FairSched idSched ∧
+    ∃ h ok, runStream (dedupFiles []) cfg closurePol idSched = (h, .ok ok) ∧ Complete cfg srv ok :=
+  ⟨wit_wf, wit_conformant, wit_focused, wit_fair,
+    C05_complete_focused wit_wf wit_conformant wit_focused wit_fair rfl wit_depth⟩
+
+open GB.C05.Witness in
+/-- `Focused` cannot be dropped from `C05_complete_focused` (DESIGN 5.5's single statement is false):
+    a well-formed target, a conformant service, a fair schedule and an import depth within the limit —
+    yet the resolution fails, because the service added an unrelated file of the target to an answer
+    and that file's import needs one more round.  (`C05_complete_any` covers such services with the
+    bound `#files ≤ RecursionLimit`.) -/
+theorem C05_unfocused_needs_more_rounds :
+    WF cfg0 drip ∧ Conformant drip dripPol ∧ FairSched idSched ∧
+    (∀ n, Reach drip.files (rootNames cfg0 drip) n → Within drip.files (rootNames cfg0 drip) cfg0.limit n) ∧
+    (runStream (dedupFiles []) cfg0 dripPol idSched).2.toOption.isNone = true :=
+  ⟨drip_wf, drip_conformant, wit_fair, drip_depth, by decide⟩
+
